@@ -22,6 +22,17 @@ func init() {
 }
 
 func runC19(w *World, r *Report) {
+	r.Rule("noconsume", "the read accessors of the encoder and decoder (Bytes, Length, Offset, BaseOffset) hand their state to nothing that could change it: looking at what was written does not drain it", 1)
+	noConsumeRule(w, r, "noconsume", func(fi *FuncInfo) bool {
+		if fi.Pkg.Name != "ofbase" {
+			return false
+		}
+		switch fi.Decl.Name.Name {
+		case "Bytes", "Length", "Len", "Offset", "BaseOffset":
+			return true
+		}
+		return false
+	})
 	theWorld = w
 	r.Rule("put", "the encoder appends exactly width/8 bytes, big-endian", 6)
 	r.Rule("read", "the reader returns the bytes at the offset big-endian and advances by width/8", 6)
